@@ -92,7 +92,7 @@ def validate(events, module="CoreTrace", wd=None, extra_env=None, timeout=1800, 
     wd = wd or tlc.scratch()
     # one TLC job per <= per_job events, each with the stdlib Ctor table of ITS OWN events only (the table is turned into
     # TLA+ functions once per run at a cost quadratic in its size)
-    shards = max(1, min(shards, len(events) // 200 or 1), -(-len(events) // per_job))
+    shards = max(1, min(shards, len(events) // 100 or 1), -(-len(events) // per_job))
     parts = [events[i::shards] for i in range(shards)]
     jobs = []
     for k, part in enumerate(parts):
